@@ -53,6 +53,21 @@ MixedFor(C) == UNION { {
       cs \in (SUBSET C) \ {{}, C} }
 Mixed == UNION { { [ctls |-> SetToSeq(C), ops |-> h] : h \in MixedFor(C) } : C \in CtlSets }
 
+\* ---- limits written stay in force: a Set* followed by every way of obtaining another handle on the same
+\* or a related group (New on the existing child, OpenExisting, top-level New of the existing base, child
+\* creation, Nest, AddProc, creating and destroying a sibling), for every kind of limit of the controller set
+SetOp(h, k, v) == [op |-> "set", h |-> h, name |-> "", names |-> <<>>, path |-> <<>>, pid |-> "", kind |-> k, val |-> v]
+KV(C) == (IF "memory" \in C THEN {<<"mem", 8388608>>} ELSE {}) \cup (IF "cpu" \in C THEN {<<"cpu", 50000>>} ELSE {})
+         \cup (IF "pids" \in C THEN {<<"pids", 7>>} ELSE {}) \cup (IF "cpuset" \in C THEN {<<"cpus", 2>>, <<"cpus", 3>>} ELSE {})
+LimCtlSets == { {"cpuset", "memory"}, {"cpu", "cpuset"}, {"cpu", "memory"}, {"cpuacct", "memory", "pids"} }
+LimFor(C) == UNION { {
+    <<TopOp, NewOp(1, "x"), AddOp(2, "p1"), SetOp(2, kv[1], kv[2]), NewOp(1, "x"), AddOp(3, "p2"), DesOp(3)>>,
+    <<TopOp, NewOp(1, "x"), AddOp(2, "p1"), SetOp(2, kv[1], kv[2]), OpenOp(<<"x">>), DesOp(3)>>,
+    <<TopOp, AddOp(1, "p1"), SetOp(1, kv[1], kv[2]), TopOp, AddOp(2, "p2"), OpenOp(<<>>), DesOp(2)>>,
+    <<TopOp, NewOp(1, "x"), AddOp(2, "p1"), SetOp(2, kv[1], kv[2]), NestOp(2, "y"), NewOp(2, "x"), NewOp(1, "y"), DesOp(5), DesOp(4)>>,
+    <<TopOp, NewOp(1, "x"), SetOp(2, kv[1], kv[2]), NewOp(1, "x"), SetOp(3, kv[1], kv[2]), NewOp(1, "x"), DesOp(3)>> } : kv \in KV(C) }
+Limits == UNION { { [ctls |-> SetToSeq(C), ops |-> h] : h \in LimFor(C) } : C \in LimCtlSets }
+
 Units == { [ver |-> v, ms |-> ms, mib |-> mib] : v \in {1, 2}, ms \in {30, 120}, mib \in {8, 24} }
 
 Vals == {"0", "1", "999", "2147483648", "9007199254740993"}
@@ -68,7 +83,7 @@ FixUint ==
 
 ASSUME ndJsonSerialize("race2.ndjson", SetToSeq(Race2))
 ASSUME ndJsonSerialize("race3.ndjson", IF WithRace3 THEN SetToSeq(Race3) ELSE <<>>)
-ASSUME ndJsonSerialize("mixed.ndjson", SetToSeq(Mixed))
+ASSUME ndJsonSerialize("mixed.ndjson", SetToSeq(Mixed \cup Limits))
 ASSUME ndJsonSerialize("units.ndjson", SetToSeq(Units))
 ASSUME ndJsonSerialize("fix.ndjson", SetToSeq(FixCpu \cup FixUint))
 ASSUME PrintT(<<"generated", Cardinality(Race2), Cardinality(Units), Cardinality(FixCpu \cup FixUint)>>)
